@@ -603,7 +603,139 @@ fn typed_constructors(ctx: &mut Ctx, p: &Parts, mutation: &str, detail: &dyn Fn(
     }
 }
 
+/// Buffer-level checked constructors: `BooleanBuffer::new`, `NullBuffer::new`,
+/// `ScalarBuffer::new`, `OffsetBuffer::new`, `RunEndBuffer::new` on exactly sized,
+/// slightly short and boundary-sized buffers. Oracle: accepted => the addressed
+/// element/bit range lies inside the buffer and the content rule of the type holds
+/// (monotone non-negative offsets; strictly increasing positive run ends covering the range).
+fn buffers_case(ctx: &mut Ctx, rng: &mut Rng) {
+    use arrow_buffer::BooleanBuffer;
+    // ---- bit range
+    let nbytes = rng.below(12);
+    let buf = abuf(&rng.bytes(nbytes));
+    let total_bits = nbytes * 8;
+    // offsets/lengths around the end of the buffer
+    let off = rng.below(total_bits + 10);
+    let len = match rng.below(3) {
+        0 => total_bits.saturating_sub(off) + rng.below(10),
+        1 => total_bits.saturating_sub(off).saturating_sub(rng.below(3)),
+        _ => rng.below(total_bits + 12),
+    };
+    let r = guard(|| BooleanBuffer::new(buf.clone(), off, len));
+    ctx.eval();
+    let fits = off.checked_add(len).map(|e| e <= total_bits).unwrap_or(false);
+    match r {
+        Ok(b) => {
+            if !fits {
+                ctx.violation(
+                    "C09|BooleanBuffer::new|accepted-range-outside-buffer",
+                    format!("BooleanBuffer::new(buffer of {nbytes} bytes, bit offset {off}, bit len {len}) was accepted although offset + len = {} bits > {total_bits}", off + len),
+                );
+            } else {
+                // accepted and inside: NullBuffer::new must count nulls exactly
+                let n = NullBuffer::new(b.clone());
+                let zeros = (0..len).filter(|i| buf.as_slice()[(off + i) / 8] & (1 << ((off + i) % 8)) == 0).count();
+                if n.null_count() != zeros {
+                    ctx.violation("C09|NullBuffer::new|wrong-null-count", format!("offset {off} len {len}: null_count {} but {zeros} unset bits", n.null_count()));
+                }
+                ctx.class(format!("buffers|bool|fits|off%8={}|len%8={}", off % 8, len % 8));
+            }
+        }
+        Err(_) => {
+            ctx.class(format!("buffers|bool|rejected|{}", if fits { "over-strict" } else { "outside" }));
+        }
+    }
+    // ---- scalar range
+    let w = *rng.pick(&[2usize, 4, 8, 16]);
+    let nb = rng.below(10) * w + *rng.pick(&[0usize, 0, 1, w - 1]);
+    let sbuf = abuf(&rng.bytes(nb));
+    let eoff = rng.below(nb / w + 3);
+    let elen = rng.below(nb / w + 3);
+    let inside = (eoff + elen) * w <= nb;
+    macro_rules! scalar {
+        ($t:ty) => {{
+            let r = guard(|| ScalarBuffer::<$t>::new(sbuf.clone(), eoff, elen));
+            if let Ok(sb) = r {
+                if !inside || sb.len() != elen {
+                    ctx.violation("C09|ScalarBuffer::new|accepted-range-outside-buffer", format!("ScalarBuffer::<{}>::new(buffer of {nb} bytes, offset {eoff}, len {elen}) accepted", stringify!($t)));
+                } else {
+                    ctx.class(format!("buffers|scalar{}|fits", w));
+                }
+            } else {
+                ctx.class(format!("buffers|scalar{}|rejected", w));
+            }
+        }};
+    }
+    ctx.eval();
+    match w {
+        2 => scalar!(i16),
+        4 => scalar!(i32),
+        8 => scalar!(i64),
+        _ => scalar!(i128),
+    }
+    // ---- offsets and run ends with one element out of order
+    let n = 1 + rng.below(8);
+    let mut offs: Vec<i32> = Vec::with_capacity(n);
+    let mut cur = rng.below(3) as i32;
+    for _ in 0..n {
+        offs.push(cur);
+        cur += rng.below(4) as i32;
+    }
+    let bad = rng.chance(1, 2);
+    if bad {
+        let k = rng.below(n);
+        offs[k] = *rng.pick(&[-1, offs[k] - 5, i32::MIN]);
+    }
+    let mono = offs.windows(2).all(|w| w[0] <= w[1]) && offs[0] >= 0;
+    let o2 = offs.clone();
+    ctx.eval();
+    if guard(move || OffsetBuffer::new(ScalarBuffer::from(o2))).is_ok() {
+        if !mono {
+            ctx.violation("C09|OffsetBuffer::new|accepted-non-monotone-or-negative", format!("offsets {offs:?} accepted"));
+        } else {
+            ctx.class("buffers|offsets|accepted".to_string());
+        }
+    } else {
+        ctx.class(format!("buffers|offsets|rejected|{}", if mono { "over-strict" } else { "bad" }));
+    }
+    let mut ends: Vec<i32> = Vec::with_capacity(n);
+    let mut cur = 0i32;
+    for _ in 0..n {
+        cur += 1 + rng.below(4) as i32;
+        ends.push(cur);
+    }
+    if rng.chance(1, 2) {
+        let k = rng.below(n);
+        ends[k] = *rng.pick(&[0, -3, if k > 0 { ends[k - 1] } else { 0 }, ends[k] - 10]);
+    }
+    let last = *ends.last().unwrap();
+    let lo = rng.below(last.max(0) as usize + 3);
+    let ll = rng.below(last.max(0) as usize + 3);
+    // a zero-length logical range addresses no run: positivity / coverage are
+    // then not needed for accessor safety (lenient), only strict monotonicity
+    let ok_ends = ends.windows(2).all(|w| w[0] < w[1]) && (ll == 0 || (ends[0] > 0 && (lo + ll) as i64 <= last as i64));
+    let e2 = ends.clone();
+    ctx.eval();
+    if guard(move || RunEndBuffer::new(ScalarBuffer::from(e2), lo, ll)).is_ok() {
+        if !ok_ends {
+            ctx.violation("C09|RunEndBuffer::new|accepted-invalid-run-ends", format!("run ends {ends:?} with logical offset {lo} len {ll} accepted"));
+        } else {
+            ctx.class("buffers|runends|accepted".to_string());
+        }
+    } else {
+        ctx.class(format!("buffers|runends|rejected|{}", if ok_ends { "over-strict" } else { "bad" }));
+    }
+}
+
 pub fn run(ctx: &mut Ctx) {
+    let nbuf = ctx.tier.pick(200u64, 200_000, 6_000_000);
+    for i in ctx.cases("buffers", nbuf) {
+        if ctx.out_of_time() {
+            break;
+        }
+        let mut rng = ctx.begin("buffers", i);
+        buffers_case(ctx, &mut rng);
+    }
     let total = ctx.tier.pick(60u64, 60_000, 2_000_000);
     for i in ctx.cases("layout", total) {
         if ctx.out_of_time() {
